@@ -241,6 +241,9 @@ def run(rep):
                 leaks.append((e['in'], sorted(set(rd))))
         rep.check(not leaks, 'C09.non-interference', f'conditions:{tq}', twhere, f'code outside the struct section runs conditionally on options {leaks[:3]}',
                   ok_detail='no effect outside the struct section is conditional on a derive/representation option')
+    # the section reaches the assembled output unconditionally (shared rule, lib/sections.py)
+    from sections import check_wiring
+    check_wiring(rep, 'C09.section-wiring', ['derive ( #('], 'struct-section')
 
 
 def struct_section(ogp, q):
